@@ -170,7 +170,58 @@ var c09SignerClasses = []string{"never-listed", "kid-lie", "proposed-only", "rem
 	"forked-deactivated-self", "forked-deactivated-self+proxy", "forked-deactivated-controller", "forked-deactivated-controller+proxy",
 	"proposed-controller", "proposed-controller", "embedded-controller-key"}
 
-var c09CreateClasses = []string{"create-foreign-key", "create-takeover", "create-kid-no-embed", "create-sig-mismatch"}
+var c09CreateClasses = []string{"create-foreign-key", "create-takeover", "create-kid-no-embed", "create-sig-mismatch",
+	"create-did-pct-one", "create-did-pct-many", "create-did-pct-lowerhex", "create-did-pct-double", "create-did-case", "create-did-suffix", "create-did-space",
+	"create-did-trailing-delimiter"}
+
+// c09Spell returns another spelling of the did:nuts DID id: still derived from the right thumbprint, but (except for kind
+// trailing-delimiter, which the DID parser drops) a different DID for DID-core, for DID.String() and for the store.
+func c09Spell(id, kind string, s, b uint32) string {
+	const prefix = "did:nuts:"
+	msid := id[len(prefix):]
+	enc := func(c byte, lower bool) string {
+		if lower {
+			return fmt.Sprintf("%%%02x", c)
+		}
+		return fmt.Sprintf("%%%02X", c)
+	}
+	pos := int(s) % len(msid)
+	switch kind {
+	case "create-did-pct-one":
+		return prefix + msid[:pos] + enc(msid[pos], false) + msid[pos+1:]
+	case "create-did-pct-lowerhex":
+		return prefix + msid[:pos] + enc(msid[pos], true) + msid[pos+1:]
+	case "create-did-pct-double":
+		e := enc(msid[pos], b%2 == 0)
+		return prefix + msid[:pos] + "%25" + e[1:] + msid[pos+1:]
+	case "create-did-pct-many":
+		out := ""
+		for i := 0; i < len(msid); i++ {
+			if (i+int(s))%(2+int(b)%5) == 0 || b%16 == 15 {
+				out += enc(msid[i], (i+int(b))%2 == 0)
+			} else {
+				out += string(msid[i])
+			}
+		}
+		return prefix + out
+	case "create-did-case":
+		for i := 0; i < len(msid); i++ {
+			j := (pos + i) % len(msid)
+			c := msid[j]
+			switch {
+			case c >= 'a' && c <= 'z':
+				return prefix + msid[:j] + string(c-32) + msid[j+1:]
+			case c >= 'A' && c <= 'Z':
+				return prefix + msid[:j] + string(c+32) + msid[j+1:]
+			}
+		}
+	case "create-did-suffix":
+		return id + []string{":", ".", "-", "_", ":x", "%00", "%20"}[int(s)%7]
+	case "create-did-space":
+		return []string{" " + id, id + " ", "\t" + id, id + "\n"}[int(s)%4]
+	}
+	return id
+}
 
 var c09DocClasses = []string{"vm-no-fragment", "vm-foreign-prefix", "vm-dup-id", "vm-thumb-mismatch", "vm-thumb-mismatch-jwkkid",
 	"svc-no-fragment", "svc-foreign-prefix", "svc-dup-id", "svc-dup-type",
@@ -194,8 +245,8 @@ func c09GenEvent(t *rapid.T) c09Event {
 		Rot:  uint8(rapid.IntRange(0, 3).Draw(t, "rot")),
 	}
 	switch g := rapid.IntRange(0, 19).Draw(t, "advgroup"); {
-	case g < 8: // legitimate
-	case g < 14:
+	case g < 7: // legitimate
+	case g < 13:
 		ev.Adv = rapid.SampledFrom(c09SignerClasses).Draw(t, "adv")
 	case g < 15:
 		ev.Adv = rapid.SampledFrom(c09CreateClasses).Draw(t, "adv")
@@ -1337,7 +1388,13 @@ func (w *c09World) offer(o *c09Offer) bool {
 	}
 
 	// what became resolvable
-	id := did.MustParseDID(o.target)
+	pid, perr := did.ParseDID(o.target)
+	if perr != nil {
+		x.Violate("accepted-not-effective:resolve", "%s accepted although %q is not a DID: %v", o.label, o.target, perr)
+		w.stop = true
+		return true
+	}
+	id := *pid
 	doc, meta, err := w.store.Resolve(id, &resolver.ResolveMetadata{AllowDeactivated: true})
 	if err != nil {
 		x.Violate("accepted-not-effective:resolve", "%s accepted but Resolve fails: %v", o.label, err)
@@ -1535,6 +1592,18 @@ func (w *c09World) create(i int, ev c09Event) {
 	case adv == "create-sig-mismatch":
 		o.signKey, o.class, o.mustAccept = w.freshKey(), adv, false
 		o.mustReject = "accepted-unauthorised:" + adv
+	case adv == "create-did-trailing-delimiter":
+		// "did:nuts:X?" / "X#" / "X/": the parser drops the empty part, the DID is the thumbprint DID; no verdict demanded
+		doc["id"] = id + []string{"?", "#", "/", "/?#"}[int(ev.S)%4]
+		o.class, o.mustAccept, o.specExact = adv, false, false
+	case strings.HasPrefix(adv, "create-did-"):
+		// the right key, a well-formed document, but the DID (used consistently for all entry ids) is only another spelling
+		// of the thumbprint DID: DID.String() differs, so it is not "the DID that equals the thumbprint of the embedded key"
+		sid := c09Spell(id, adv, ev.S, ev.B)
+		doc = w.rawDoc(sid, spec)
+		o.target, o.kid = sid, sid+"#"+keys[k].frag
+		o.class, o.mustAccept = adv, false
+		o.mustReject = "accepted-unauthorised:create-did-spelling:" + strings.SplitN(strings.TrimPrefix(adv, "create-did-"), "-", 2)[0]
 	}
 	if o.payload == nil {
 		o.payload = w.encode(doc)
